@@ -20,5 +20,9 @@ def run(c, a):
     c.sample_events(ev, 1, lambda l: '"tone"' in l)
     c.sample_events(ev, 2, lambda l: '"tpair"' in l and '"eq":true' in l)
     c.trace("C07Trace", ev, env={"VGEN": gen}, header=lambda l: '"ev":"tdef"' in l, dedupe=False)
+    # the per-type observations once more by a fresh process that visits the types in the opposite order
+    ev2 = c.path("events-rev.ndjson")
+    c.harness("c07", ev2, inp=gen, args=["rev=1"])
+    c.trace("C07Trace", ev2, env={"VGEN": gen}, header=lambda l: '"ev":"tdef"' in l, dedupe=False)
     c.extra["exhaustive"] = True
     c.extra["types"] = n
